@@ -291,6 +291,22 @@ def p_named_things(version):
             pt.compileTeal(e, pt.Mode.Application, version=version))
 
 
+def p_templates_tied(version):
+    """several template placeholders and literals of every kind, all used equally often (ties in the frequency
+    ranking of the constant blocks): the order inside the blocks must not depend on hashing"""
+    ti = [pt.Tmpl.Int("TMPL_MIN_FEE"), pt.Tmpl.Int("TMPL_MAX_FEE"), pt.Tmpl.Int("TMPL_ROUNDS"), pt.Int(1000), pt.Int(2000)]
+    tb = [pt.Tmpl.Bytes("TMPL_OWNER_KEY"), pt.Tmpl.Bytes("TMPL_ESCROW_KEY"), pt.Tmpl.Addr("TMPL_RECEIVER"), pt.Bytes("lit1"),
+          pt.Bytes("lit2"), pt.MethodSignature("probe()void")]
+    steps = []
+    for _round in range(2):
+        for e in ti:
+            steps.append(pt.Pop(e))
+        for e in tb:
+            steps.append(pt.Pop(e))
+    e = pt.Seq(*steps, pt.Int(1))
+    return pt.compileTeal(e, pt.Mode.Application, version=version, assembleConstants=True)
+
+
 def p_same_expr_twice(version):
     x = pt.ScratchVar()
 
@@ -364,6 +380,59 @@ def p_same_compilation_twice(version):
     bad = [t for t in texts if any(t[0] != x_ for x_ in t)][0]
     k = [i for i, x_ in enumerate(bad) if x_ != bad[0]][0]
     return "DIFFERENT call=%d\n" % k + bad[0] + "\n-----\n" + bad[k]
+
+
+def query_build(version, query, **compile_kw):
+    """7 + outer(5) == 5013 with outer(k) = k*1000 + inc(k); optionally the wrapper `outer` is queried (type_of /
+    has_return) between its definition and the creation of the main routine's variables"""
+    if True:
+        @pt.ABIReturnSubroutine
+        def inc(x: abi.Uint64, *, output: abi.Uint64) -> pt.Expr:
+            # the callee overwrites its own copy of the argument and uses a temporary
+            tmp = abi.Uint64()
+            return pt.Seq(x.set(x.get() + pt.Int(100)), tmp.set(x.get() + pt.Int(1)), output.set(tmp))
+
+        @pt.Subroutine(pt.TealType.uint64)
+        def outer(k):
+            # every variable of this routine is written before the call of inc and read after it
+            k1, k2, k3 = pt.ScratchVar(pt.TealType.uint64), pt.ScratchVar(pt.TealType.uint64), pt.ScratchVar(pt.TealType.uint64)
+            a, b = abi.Uint64(), abi.Uint64()
+            return pt.Seq(k1.store(k * pt.Int(1000)), k2.store(k * pt.Int(100)), k3.store(k * pt.Int(10)), a.set(k),
+                          inc(a).store_into(b), k1.load() + k2.load() + k3.load() + a.get() + b.get() + k)
+        if query:
+            outer.type_of()
+            outer.has_return()
+        total = pt.ScratchVar(pt.TealType.uint64)
+        other = pt.ScratchVar(pt.TealType.uint64)
+        e = pt.Seq(total.store(pt.Int(7)), other.store(outer(pt.Int(5))), total.load() + other.load() == pt.Int(5673))
+        return pt.compileTeal(e, pt.Mode.Application, version=version, **compile_kw)
+
+
+def p_same_expr_query_before_build(version):
+    """the same program is built twice from scratch; the second time a subroutine wrapper is QUERIED (type_of /
+    has_return evaluate its body on the side and rewind the slot counter) before the remaining variables are
+    created.  The two texts must agree up to a one-to-one renumbering of scratch slots."""
+    def build(query):
+        return query_build(version, query)
+
+    def canon(text):
+        # subroutine ids (label suffixes) differ between two builds: rename labels by order of definition
+        lines = text.split("\n")
+        ren = {}
+        for l in lines:
+            s = l.strip()
+            if s.endswith(":") and " " not in s:
+                ren.setdefault(s[:-1], "L%d" % len(ren))
+        out = []
+        for l in lines:
+            toks = l.split(" ")
+            out.append(" ".join(ren.get(t, ren.get(t[:-1], t[:-1]) + ":" if t.endswith(":") and t[:-1] in ren else t) for t in toks))
+        return "\n".join(out)
+    t1 = canon(build(False))
+    t2 = canon(build(True))
+    if equal_up_to_slot_renumbering(t1, t2):
+        return "SAME"
+    return "DIFFERENT\n" + t1 + "\n-----\n" + t2
 
 
 def p_router_twice(version):
@@ -463,7 +532,7 @@ def s_named(version, mid):
 SPLIT_PROBES = {"split_slots": s_slots, "split_subs": s_subs, "split_router": s_router, "split_abi": s_abi,
                 "split_named": s_named}
 
-PROBES = {"recursive_reserved": p_recursive_reserved, "named_things": p_named_things, "abi_main": p_abi_main, "recursive": p_recursive, "router": p_router, "slots": p_slots,
+PROBES = {"templates_tied": p_templates_tied, "same_expr_query_before_build": p_same_expr_query_before_build, "recursive_reserved": p_recursive_reserved, "named_things": p_named_things, "abi_main": p_abi_main, "recursive": p_recursive, "router": p_router, "slots": p_slots,
           "same_expr_twice": p_same_expr_twice, "same_expr_probe_between": p_same_expr_probe_between,
           "router_twice": p_router_twice, "same_expr_one_compilation_object": p_same_compilation_twice}
 PROBE_VERSIONS = (6, 8)
